@@ -78,7 +78,7 @@ func jlsInts(s []int, lim int) string {
 	return b.String()
 }
 
-var jlsKinds = []string{"noise", "twolevel", "runs", "runs-eol", "gradient", "near-edges", "ramp", "smooth", "constant", "run-jump"}
+var jlsKinds = []string{"noise", "twolevel", "runs", "runs-eol", "gradient", "near-edges", "ramp", "smooth", "constant", "run-jump", "ramp-diag", "two-level-short"}
 
 // run lengths of the "run-jump" family: every length 1..80 and the neighbourhoods of 128, 256, 512, 1024
 var jlsRunLens = func() []int {
@@ -310,6 +310,44 @@ func jlsGen(r *hx.Rand, kind string, w, h, comps, p, near int) jlsImage {
 				for c := 0; c < comps; c++ {
 					s[at(xx, h-1, c)] = r.Intn(mv + 1)
 				}
+			}
+		}
+	case "ramp-diag": // diagonal ramp with a constant step: one regular-mode context under a constant bias (C saturates)
+		st := r.Pick([]int{300, 300, 129, 200, 517, -300})
+		if mv < 1024 {
+			st = r.Pick([]int{3, 5, -4})
+		}
+		for y := 0; y < h; y++ {
+			for x := 0; x < w; x++ {
+				for c := 0; c < comps; c++ {
+					v := (st*(x+y) + 7*c) % (mv + 1)
+					if v < 0 {
+						v += mv + 1
+					}
+					s[at(x, y, c)] = v
+				}
+			}
+		}
+	case "two-level-short": // two levels a small step apart, flat segments of 2..6 samples: many run interruptions with k = 0
+		lo := r.Intn(max(1, mv-2*near-2))
+		d := r.Pick([]int{2*near + 1, 2*near + 1, 2*near + 2, near + 1})
+		if lo+d > mv {
+			lo = mv - d
+		}
+		if lo < 0 {
+			lo, d = 0, mv
+		}
+		for y := 0; y < h; y++ {
+			x := 0
+			lvl := r.Intn(2)
+			for x < w {
+				for k := r.Range(2, 6); k > 0 && x < w; k-- {
+					for c := 0; c < comps; c++ {
+						s[at(x, y, c)] = lo + lvl*d
+					}
+					x++
+				}
+				lvl = 1 - lvl
 			}
 		}
 	case "smooth": // random walk with small steps: exercises N=64 resets and bias saturation
@@ -711,6 +749,21 @@ func jlsRunJumpImages(r *hx.Rand, thorough bool, nears func(p int) []int, f func
 					}
 					f(jlsLadder(r, comps, p, near, t, t), near)
 				}
+			}
+		}
+	}
+	// long constant-bias ramps (C reaches MAX_C) and two-level masks with short flat segments
+	// (more than RESET run interruptions per context with k = 0)
+	for p := 8; p <= 16; p++ {
+		if !thorough && p != 8 && p != 9 && p != 12 && p != 16 {
+			continue
+		}
+		for _, near := range nears(p) {
+			for _, comps := range []int{1, 3} {
+				if p >= 9 {
+					f(jlsGen(r, "ramp-diag", 96, 96, comps, p, near), near)
+				}
+				f(jlsGen(r, "two-level-short", 96, 48, comps, p, near), near)
 			}
 		}
 	}
